@@ -15,6 +15,7 @@ import (
 	"fmt"
 	"math/rand"
 	"reflect"
+	"sort"
 	"strings"
 	"time"
 
@@ -45,7 +46,7 @@ func firstDiff(a, b []bool) int {
 
 // ---- A: And law -------------------------------------------------------------
 
-func andLaw(w *hx.W, uni []sr.Msg, ctx sr.Ctx) {
+func andLaw(w *hx.W, uni []sr.Msg, ctx sr.Ctx, zone string, thin int) {
 	pool := sr.Pool(w.RandGlobal("pool"), w.Pick(260, 620))
 	sel := make([][]bool, len(pool))
 	for i := range pool {
@@ -69,6 +70,7 @@ func andLaw(w *hx.W, uni []sr.Msg, ctx sr.Ctx) {
 	if w.Quick() {
 		stride = 3
 	}
+	stride *= thin
 	var pairs int64
 	for i := range pool {
 		for j := range pool {
@@ -88,7 +90,7 @@ func andLaw(w *hx.W, uni []sr.Msg, ctx sr.Ctx) {
 			for k := range uni {
 				if got[k] != (sel[i][k] && sel[j][k]) {
 					m := &uni[k]
-					w.Violation("and-not-intersection@"+sr.Fields(a)+"&"+sr.Fields(b),
+					w.Violation("and-not-intersection@"+sr.Fields(a)+"&"+sr.Fields(b)+zone,
 						fmt.Sprintf("a={%s} b={%s}: a.And(b)={%s} matches message #%d=%v but a matches=%v, b matches=%v (size=%d internal=%s flags=%v)",
 							sr.Describe(a), sr.Describe(b), sr.Describe(c), m.Seq, got[k], sel[i][k], sel[j][k], m.Size, m.Internal.Format("2006-01-02"), flagList(m)),
 						map[string]interface{}{"a": sr.Describe(a), "b": sr.Describe(b), "and": sr.Describe(c), "message_seq": m.Seq})
@@ -101,7 +103,7 @@ func andLaw(w *hx.W, uni []sr.Msg, ctx sr.Ctx) {
 			if pairs%20011 == 1 {
 				w.Sample(map[string]string{"kind": "And pair", "a": sr.Describe(a), "b": sr.Describe(b), "a.And(b)": sr.Describe(c), "selected": bits(got)})
 			}
-			w.Class("and/" + sr.Fields(a) + "&" + sr.Fields(b))
+			w.Class("and" + zone + "/" + sr.Fields(a) + "&" + sr.Fields(b))
 		}
 	}
 	w.Enumerated(pairs)
@@ -123,6 +125,100 @@ func andLaw(w *hx.W, uni []sr.Msg, ctx sr.Ctx) {
 			w.Metric("caller_level_slice_aliasing_observed", 1)
 		}
 	}
+}
+
+// andHistories: criteria are values that programs keep and reuse. An operand built up by several
+// And calls (its slices have spare capacity) is combined into several receivers, each of which is
+// then refined further; at the end every result must still select exactly the conjunction it was
+// built from, and the shared operand must be unchanged.
+func andHistories(w *hx.W, uni []sr.Msg, ctx sr.Ctx) {
+	rng := w.Rand("histories")
+	singles := sr.Singles()
+	sel := make([][]bool, len(singles))
+	for i := range singles {
+		sel[i] = sr.Selected(&singles[i], uni, ctx)
+	}
+	conj := func(idx []int) []bool {
+		out := make([]bool, len(uni))
+		for k := range out {
+			out[k] = true
+			for _, i := range idx {
+				out[k] = out[k] && sel[i][k]
+			}
+		}
+		return out
+	}
+	// singles grouped by the slice field they fill: accumulating several of one group in one operand
+	// gives that slice spare capacity (append doubles), which is where shared backing arrays bite
+	groups := map[string][]int{}
+	for i := range singles {
+		groups[sr.Fields(&singles[i])] = append(groups[sr.Fields(&singles[i])], i)
+	}
+	var gnames []string
+	for g, l := range groups {
+		if len(l) >= 3 {
+			gnames = append(gnames, g)
+		}
+	}
+	sort.Strings(gnames)
+	n := w.Pick(400, 8000)
+	for t := 0; t < n; t++ {
+		var bParts []int
+		b := &imap.SearchCriteria{}
+		grp := groups[gnames[rng.Intn(len(gnames))]]
+		pickIdx := func() int {
+			if rng.Intn(4) != 0 {
+				return grp[rng.Intn(len(grp))]
+			}
+			return rng.Intn(len(singles))
+		}
+		for k := 1 + rng.Intn(7); k > 0; k-- {
+			i := pickIdx()
+			b.And(sr.Clone(&singles[i]))
+			bParts = append(bParts, i)
+		}
+		bSnap := sr.Clone(b)
+		type res struct {
+			c     *imap.SearchCriteria
+			parts []int
+		}
+		var rs []res
+		for j := 2 + rng.Intn(3); j > 0; j-- {
+			r := &imap.SearchCriteria{}
+			parts := append([]int(nil), bParts...)
+			if rng.Intn(2) == 0 {
+				i := rng.Intn(len(singles))
+				r = sr.Clone(&singles[i])
+				parts = append(parts, i)
+			}
+			r.And(b) // the same operand object every time
+			rs = append(rs, res{r, parts})
+		}
+		for round := 0; round < 2; round++ {
+			for j := range rs {
+				i := pickIdx()
+				rs[j].c.And(sr.Clone(&singles[i]))
+				rs[j].parts = append(rs[j].parts, i)
+			}
+		}
+		for j := range rs {
+			got := sr.Selected(rs[j].c, uni, ctx)
+			if k := firstDiff(got, conj(rs[j].parts)); k >= 0 {
+				var names []string
+				for _, i := range rs[j].parts {
+					names = append(names, sr.Describe(&singles[i]))
+				}
+				w.Violation("and-history@result-changed-later", fmt.Sprintf("result #%d, built as the conjunction of [%s] by a history of And calls that share one operand, finally reads {%s} and differs on message #%d", j, strings.Join(names, " ; "), sr.Describe(rs[j].c), uni[k].Seq), nil)
+				break
+			}
+		}
+		if !reflect.DeepEqual(b, bSnap) {
+			w.Violation("and-history@operand-modified", fmt.Sprintf("the shared operand {%s} reads {%s} after the results built from it were refined", sr.Describe(bSnap), sr.Describe(b)), nil)
+		}
+		w.CaseStr(fmt.Sprintf("history|%d|%v", t, bParts))
+	}
+	w.Class("and-histories")
+	w.Metric("and_histories", int64(n))
 }
 
 func flagList(m *sr.Msg) []string {
@@ -398,8 +494,20 @@ func parse(b []byte) []kit.RespLine { l, _ := kit.ParseResponses(b); return l }
 
 func body(w *hx.W) {
 	uni, ctx := sr.Universe(400)
-	andLaw(w, uni, ctx)
+	andLaw(w, uni, ctx, "", 1)
+	andHistories(w, uni, ctx)
 	serverKeys(w, uni, ctx)
+	// the same law with every time (bounds and message dates) in one non-UTC zone: the calendar date
+	// of each is still unambiguous, but no longer the UTC date
+	for _, z := range []struct {
+		name string
+		loc  *time.Location
+	}{{"/zone+09:00", time.FixedZone("", 9*3600)}, {"/zone-05:00", time.FixedZone("", -5*3600)}, {"/zone+05:30", time.FixedZone("", 5*3600+1800)}} {
+		sr.Loc = z.loc
+		zu, zc := sr.Universe(400)
+		andLaw(w, zu, zc, z.name, 4)
+	}
+	sr.Loc = time.UTC
 	_ = rand.Int
 }
 
@@ -411,7 +519,7 @@ func main() {
 			"B: SEARCH commands of 1..5 keys from a 56-key alphabet (incl. NEW, OLD, ON, SENTON, LARGER/SMALLER, KEYWORD, NOT/OR, parenthesised lists, sets) sent in every permutation (<=120) through a real server (distinct by command text)",
 		Assumptions: []string{
 			"reference matcher internal/ref/searchref written from RFC 9051 §6.4.4 and the SearchCriteria field docs: dates compared as calendar dates, flags case-insensitive, Larger/Smaller strict, zero = unset",
-			"all dates are in UTC so that the calendar-date and instant readings of the date bounds coincide; ModSeq is outside the property",
+			"within one run all times (bounds and message dates) are in one zone - UTC, +09:00, -05:00 or +05:30 - so that the calendar date of each is unambiguous and the calendar-date and instant readings of the date bounds coincide; ModSeq is outside the property",
 			"a key whose sub-key is malformed has no meaning: the command must not be answered OK",
 		},
 		WallQuick: 20 * time.Minute, WallThorough: 120 * time.Minute,
